@@ -394,7 +394,7 @@ def tier_and_seed(argv):
 
 def differential(res, prop, sub, cases, to_coq, requires, mismatch_fn, model_fn, oracle,
                  group_oracle=None, shrink=None, nontrivial=None, signature=None, shards=16,
-                 theorems_note=""):
+                 theorems_note="", strip=None, tag="cases"):
     """Run `cases` on the implementation (harness subcommand `sub`) and on the Coq model.
     oracle(case, obs) -> None or a string describing an implementation-side property failure.
     group_oracle(cases, obs) -> list of (index, message).
@@ -404,7 +404,8 @@ def differential(res, prop, sub, cases, to_coq, requires, mismatch_fn, model_fn,
         res.violation({"property": prop, "broken": "harness build (facade no longer compiles against /repo)",
                        "log": log[-4000:], "theorems_relying_on_tie": theorems_note}, found_input=False)
         return None
-    obs, hlog = run_harness(sub, cases, prop)
+    hcases = [strip(c) for c in cases] if strip else cases
+    obs, hlog = run_harness(sub, hcases, prop, tag=tag)
     if obs is None or len(obs) != len(cases):
         res.obligation(False, "harness run: " + str(hlog)[-2000:])
         res.violation({"property": prop, "broken": "harness run crashed", "log": str(hlog)[-4000:]}, found_input=False)
@@ -416,7 +417,7 @@ def differential(res, prop, sub, cases, to_coq, requires, mismatch_fn, model_fn,
         if msg:
             failing.append((i, msg))
         if nontrivial is None or nontrivial(c, o):
-            res.nontrivial.add(json.dumps(c, sort_keys=True))
+            res.nontrivial.add(json.dumps(hcases[i], sort_keys=True))
     if group_oracle:
         failing += group_oracle(cases, obs)
     for i, c in enumerate(cases[:3]):
@@ -435,7 +436,7 @@ def differential(res, prop, sub, cases, to_coq, requires, mismatch_fn, model_fn,
                        "case": c, "impl_obs": o, "harness": sub, "signature": sig}, found_input=True, signature=sig)
     # model vs implementation
     terms = [(i, to_coq(c), cobs(o["rows"])) for i, (c, o) in enumerate(zip(cases, obs))]
-    okc, bad, clog = run_coq_cases(prop, requires, mismatch_fn, terms, shards=shards)
+    okc, bad, clog = run_coq_cases(prop, requires, mismatch_fn, terms, shards=shards, tag=tag)
     res.obligation(okc, "model evaluation (coqc cases): " + clog[-1500:])
     res.obligation(not bad, "model/implementation correspondence on %d cases (mismatches: %s)" % (len(cases), bad[:10]))
     res.extra["traces_validated_against_impl"] = len(cases) - len(bad)
@@ -471,3 +472,14 @@ def shrink_case(prop, sub, c, o, msg, oracle, shrink, rounds=6):
             break
         c, o, msg = nxt
     return c, o, msg
+
+
+def load_corpus(prop, key):
+    """minimised regression inputs kept under corpus/<prop>/*.json; always run first"""
+    d = os.path.join(ROOT, "corpus", prop)
+    out = []
+    if os.path.isdir(d):
+        for f in sorted(os.listdir(d)):
+            if f.endswith(".json"):
+                out += json.load(open(os.path.join(d, f))).get(key, [])
+    return out
